@@ -722,7 +722,7 @@ def _workload(tier, rng, shard, nshards):
                 ents = [(e[0], e[2]) for e in ents]
             t = make_tier(kind, "q", ents, lo, hi)
         else:
-            kind, ents, lo, hi, t = rand_tier(rng, "q", 5.0, 6, 0.35, ["a", "b", "c", "ab", "Ab", "abc"], neg=0.06, ties=0.15)
+            kind, ents, lo, hi, t = rand_tier(rng, "q", 5.0, 6, 0.35, ["a", "b", "c", "ab", "Ab", "abc", ""], neg=0.06, ties=0.15)  # ("": an unlabelled stretch kept as an entry)
         for _q in range(3):
             call(t.find, rng.choice(queries), rng.random() < 0.4, rng.random() < 0.3)
         _ = t.timestamps
